@@ -313,6 +313,7 @@ type recDS struct {
 	PutHook func(key string, value []byte)
 	NoBatch bool // behave as a datastore without batching support
 	FailPut func(key string) bool // a direct put for which this returns true fails (nothing is written)
+	FailGet func(key string) bool // a read (get / has) for which this returns true fails with an I/O error
 }
 
 func newRecDS() *recDS { return &recDS{m: map[string][]byte{}} }
@@ -325,6 +326,9 @@ func (r *recDS) hook(op, key string) {
 
 func (r *recDS) Get(_ context.Context, key datastore.Key) ([]byte, error) {
 	r.hook("get", key.String())
+	if r.FailGet != nil && r.FailGet(key.String()) {
+		return nil, fmt.Errorf("injected datastore read failure (i/o timeout)")
+	}
 	r.mu.Lock()
 	defer r.mu.Unlock()
 	v, ok := r.m[key.String()]
@@ -336,6 +340,9 @@ func (r *recDS) Get(_ context.Context, key datastore.Key) ([]byte, error) {
 
 func (r *recDS) Has(_ context.Context, key datastore.Key) (bool, error) {
 	r.hook("has", key.String())
+	if r.FailGet != nil && r.FailGet(key.String()) {
+		return false, fmt.Errorf("injected datastore read failure (i/o timeout)")
+	}
 	r.mu.Lock()
 	defer r.mu.Unlock()
 	_, ok := r.m[key.String()]
